@@ -200,11 +200,11 @@ def arg_text(a):
 class Gen:
     """One generator instance per case.  `stream` selects the input class:
     main    : any number / order of public, protected, equation and algorithm sections; declarators with own
-              and/or clause-level dimensions (the inputs of the former findings C04-F2 / C04-F3 included)
+              and/or clause-level dimensions, import lists of 1-4 names (the inputs of the former findings
+              C04-F2 / C04-F3 / C04-F4 included)
     dup     : one class declares a component twice
     redecl  : extends clauses redeclare components (component_clause1 inside an extends modification)
     quirk   : duplicate nested class names / clashing imports (only model vs code, no direct expectation)
-    imp3    : import lists with three or more names (inputs of the open finding C04-F4)
     """
 
     def __init__(self, rng, stream="main", size=1.0):
@@ -284,7 +284,7 @@ class Gen:
             return {"t": "imp", "form": "short", "path": path, "short": n, "names": []}
         if form == "star":
             return {"t": "imp", "form": "star", "path": path, "short": "", "names": []}
-        k = rng.randint(3, 4) if self.stream == "imp3" else rng.randint(1, 2)   # > 2 names: finding C04-F4
+        k = rng.choice([1, 2, 2, 3, 4])                  # 3+ names: the nested import_list levels (former finding C04-F4)
         if len(pool) < k:
             return None
         ns = pool[:k] if self.stream == "quirk" else rng.sample(pool, k)
